@@ -4,6 +4,12 @@ def m(name, rule, key, old, new, count=1):
     return dict(name=name, kind='mutant', rule=rule, key=key, edits=[dict(file=R, old=old, new=new, count=count)])
 
 CASES = [
+    # fix a4ea3f2: a proxied item in a proxied string
+    m('revert-fix-contains-unwraps-item', 'R7', 'SandboxResult.__contains__[True,proxied item]',
+      "        if isinstance(item, SandboxResult):\n            # A string only accepts an actual string on the left of `in`\n            item = item.value\n", ""),
+    dict(name='twin-contains-unwraps-through-helper', kind='twin', edits=[dict(file=R,
+         old="        if isinstance(item, SandboxResult):\n            # A string only accepts an actual string on the left of `in`\n            item = item.value\n        return item in self.value\n",
+         new="        container, member = _unwrap_value_pair(self, item)\n        return member in container\n")]),
     dict(name='revert-fix-floor-explicit-dunder', kind='mutant', rule='R3', key='SandboxResult.__floor__:through-the-builtin',
          edits=[dict(file='pedal/sandbox/result.py', old="        return self._clone_this_result(math.floor(self.value))", new="        return self._clone_this_result(self.value.__floor__())")]),
     dict(name='twin-floor-not-rewrapped', kind='twin',
